@@ -21,6 +21,8 @@ package keeper
 
 // Every stored position sits under its owner's key and id; every stored pool under its amm pool id.
 //@ rowinv C08/positionKey table leveragelp:types.GetPositionKey row types.Position : unbech32(row.Address) == key0 && row.Id == key1 && key1 > 0
+// Position owners are user accounts (transaction signers), never the commitment module account (T6).
+//@ rowinv C02/ownerIsNotCustody table leveragelp:types.GetPositionKey row types.Position : key0 != modAddr("commitment")
 //@ rowinv C08/poolKey table leveragelp:types.KeyPrefix/types.PoolKey row types.Pool : row.AmmPoolId == key1
 
 // Position ids are handed out from a counter: nothing is stored under an id above it.
@@ -28,6 +30,7 @@ package keeper
 //@ forall p Int
 //@ assumes !posHas(ctx, unbech32(position.Address), idCount(ctx) + 1)
 //@ ensures C08/set-keeps-counter-in-step: lpCountGap(ctx) == old(lpCountGap(ctx)) + ite(old(position.Id) == 0, 0, ite(old(posHas(ctx, unbech32(position.Address), position.Id)), 0, 0 - 1))
+//@ assumes unbech32(position.Address) != modAddr("commitment")
 
 //@ func (Keeper).DestroyPosition
 //@ ensures C08/destroy-keeps-counter-in-step: err == nil && old(openCount(ctx)) > 0 ==> lpCountGap(ctx) == old(lpCountGap(ctx))
@@ -60,6 +63,8 @@ package keeper
 //@ ensures C08/pool-total-in-step-with-positions: err == nil ==> lpPoolGap(ctx, p) == old(lpPoolGap(ctx, p))
 //@ ensures C08/counter-in-step: err == nil ==> lpCountGap(ctx) == old(lpCountGap(ctx)) - ite(old(posHas(ctx, unbech32(position.Address), position.Id)), 0, 1)
 //@ ensures C10/opens-above-safety-factor: err == nil ==> result0.PositionHealth > k.GetSafetyFactor(ctx) && result0.PositionHealth == fst(resultOf("GetPositionHealth", 1)) && posRow(ctx, unbech32(position.Address), position.Id).PositionHealth == result0.PositionHealth
+//@ ensures C02/amm-shares-in-step: err == nil ==> shareGap(ctx, p) == old(shareGap(ctx, p)) && sharesOutsideCustody(ctx, p) == old(sharesOutsideCustody(ctx, p))
+//@ assumes unbech32(position.Address) != modAddr("commitment")
 
 //@ func (Keeper).OpenLong
 //@ forall p Int
@@ -67,6 +72,8 @@ package keeper
 //@ assumes !posHas(ctx, unbech32(msg.Creator), idCount(ctx) + 1)
 //@ ensures C08/pool-total-in-step-with-positions: err == nil ==> lpPoolGap(ctx, p) == old(lpPoolGap(ctx, p))
 //@ ensures C08/counter-in-step: err == nil ==> lpCountGap(ctx) == old(lpCountGap(ctx))
+//@ ensures C02/amm-shares-in-step: err == nil ==> shareGap(ctx, p) == old(shareGap(ctx, p)) && sharesOutsideCustody(ctx, p) == old(sharesOutsideCustody(ctx, p))
+//@ assumes unbech32(msg.Creator) != modAddr("commitment")
 
 //@ func (Keeper).OpenConsolidate
 //@ forall p Int
@@ -74,6 +81,8 @@ package keeper
 //@ requires position.Id != 0 && posHas(ctx, unbech32(position.Address), position.Id) && positionIsStored(ctx, position)
 //@ ensures C08/pool-total-in-step-with-positions: err == nil ==> lpPoolGap(ctx, p) == old(lpPoolGap(ctx, p))
 //@ ensures C08/counter-in-step: err == nil ==> lpCountGap(ctx) == old(lpCountGap(ctx))
+//@ ensures C02/amm-shares-in-step: err == nil ==> shareGap(ctx, p) == old(shareGap(ctx, p)) && sharesOutsideCustody(ctx, p) == old(sharesOutsideCustody(ctx, p))
+//@ assumes unbech32(position.Address) != modAddr("commitment")
 
 //@ func (Keeper).ForceCloseLong
 //@ forall p Int
@@ -88,6 +97,8 @@ package keeper
 //@ ensures C08/full-close-removes-the-position: err == nil && lpAmount == position.LeveragedLpAmount ==> !posHas(ctx, unbech32(position.Address), position.Id)
 //@ ensures C08/partial-close-keeps-the-rest: err == nil && lpAmount != position.LeveragedLpAmount ==> posHas(ctx, unbech32(position.Address), position.Id) && posRow(ctx, unbech32(position.Address), position.Id).LeveragedLpAmount == old(position.LeveragedLpAmount) - lpAmount
 //@ callers C10/force-close-only-behind-a-gate: (Keeper).CloseLong, (Keeper).CheckAndLiquidateUnhealthyPosition, (Keeper).CheckAndCloseAtStopLoss
+//@ ensures C02/amm-shares-in-step: err == nil ==> shareGap(ctx, p) == old(shareGap(ctx, p))
+//@ assumes unbech32(position.Address) != modAddr("commitment")
 
 // ---- C08: the other writers of the leveragelp store, and the callers up to the entry points ---------
 // Primitive writers of the invariant's tables: executed in line at their call sites (their
@@ -172,6 +183,8 @@ package keeper
 //@ ensures C10/health-is-computed-at-that-moment: err == nil || closeAttempted || isHealthy ==> health == fst(resultOf("GetPositionHealth", 1))
 //@ ensures C10/closes-only-at-or-below-safety-factor: closeAttempted ==> health <= old(k.GetSafetyFactor(ctx)) && !isHealthy
 //@ ensures C10/healthy-position-left-alone: !closeAttempted ==> !bankTouched(ctx) && posHas(ctx, unbech32(position.Address), position.Id) && posRow(ctx, unbech32(position.Address), position.Id).LeveragedLpAmount == old(position.LeveragedLpAmount) && posRow(ctx, unbech32(position.Address), position.Id).Collateral.Amount == old(position.Collateral.Amount) && principalOf(ctx, a) == old(principalOf(ctx, a))
+//@ ensures C02/amm-shares-in-step: shareGap(ctx, p) == old(shareGap(ctx, p))
+//@ assumes unbech32(position.Address) != modAddr("commitment")
 
 //@ func (Keeper).CheckAndCloseAtStopLoss
 //@ forall p Int
@@ -187,6 +200,8 @@ package keeper
 //@ forall a Addr
 //@ ensures C10/closes-only-at-stop-loss: closeAttempted ==> underStopLossPrice && fst(resultOf("LpTokenPrice", 1)) <= old(position.StopLossPrice)
 //@ ensures C10/position-above-stop-loss-left-alone: !closeAttempted ==> !bankTouched(ctx) && posHas(ctx, unbech32(position.Address), position.Id) && posRow(ctx, unbech32(position.Address), position.Id).LeveragedLpAmount == old(position.LeveragedLpAmount) && posRow(ctx, unbech32(position.Address), position.Id).Collateral.Amount == old(position.Collateral.Amount) && principalOf(ctx, a) == old(principalOf(ctx, a))
+//@ ensures C02/amm-shares-in-step: shareGap(ctx, p) == old(shareGap(ctx, p))
+//@ assumes unbech32(position.Address) != modAddr("commitment")
 
 //@ func (Keeper).CloseLong
 //@ forall p Int
@@ -198,6 +213,7 @@ package keeper
 //@ modifies table:leveragelp:types.GetPositionKey[unbech32(msg.Creator); msg.Id]
 //@ modifies table:leveragelp:types.KeyPrefix/types.PoolKey, table:leveragelp:types.OpenPositionCountPrefix
 //@ modifies bank, module:amm, module:stablestake, module:commitment, module:masterchef, module:accountedpool, module:estaking, module:perpetual, module:tier, module:sdk-distribution
+//@ ensures C02/amm-shares-in-step: err == nil ==> shareGap(ctx, p) == old(shareGap(ctx, p))
 
 //@ func (Keeper).Close
 //@ forall p Int
@@ -205,6 +221,7 @@ package keeper
 //@ assumes openCount(ctx) > 0
 //@ ensures C08/pool-total-in-step-with-positions: err == nil ==> lpPoolGap(ctx, p) == old(lpPoolGap(ctx, p))
 //@ ensures C08/counter-in-step: err == nil ==> lpCountGap(ctx) == old(lpCountGap(ctx))
+//@ ensures C02/amm-shares-in-step: err == nil ==> shareGap(ctx, p) == old(shareGap(ctx, p))
 
 //@ func (msgServer).Close
 //@ entry
@@ -213,6 +230,7 @@ package keeper
 //@ assumes openCount(goCtx) > 0
 //@ ensures C08/pool-total-in-step-with-positions: err == nil ==> lpPoolGap(goCtx, p) == old(lpPoolGap(goCtx, p))
 //@ ensures C08/counter-in-step: err == nil ==> lpCountGap(goCtx) == old(lpCountGap(goCtx))
+//@ ensures C02/amm-shares-in-step: err == nil ==> shareGap(goCtx, p) == old(shareGap(goCtx, p))
 
 //@ func (Keeper).Open
 //@ forall p Int
@@ -220,6 +238,8 @@ package keeper
 //@ assumes !posHas(ctx, unbech32(msg.Creator), idCount(ctx) + 1)
 //@ ensures C08/pool-total-in-step-with-positions: err == nil ==> lpPoolGap(ctx, p) == old(lpPoolGap(ctx, p))
 //@ ensures C08/counter-in-step: err == nil ==> lpCountGap(ctx) == old(lpCountGap(ctx))
+//@ ensures C02/amm-shares-in-step: err == nil ==> shareGap(ctx, p) == old(shareGap(ctx, p)) && sharesOutsideCustody(ctx, p) == old(sharesOutsideCustody(ctx, p))
+//@ assumes unbech32(msg.Creator) != modAddr("commitment")
 
 //@ func (msgServer).Open
 //@ entry
@@ -228,6 +248,8 @@ package keeper
 //@ assumes !posHas(goCtx, unbech32(msg.Creator), idCount(goCtx) + 1)
 //@ ensures C08/pool-total-in-step-with-positions: err == nil ==> lpPoolGap(goCtx, p) == old(lpPoolGap(goCtx, p))
 //@ ensures C08/counter-in-step: err == nil ==> lpCountGap(goCtx) == old(lpCountGap(goCtx))
+//@ ensures C02/amm-shares-in-step: err == nil ==> shareGap(goCtx, p) == old(shareGap(goCtx, p)) && sharesOutsideCustody(goCtx, p) == old(sharesOutsideCustody(goCtx, p))
+//@ assumes unbech32(msg.Creator) != modAddr("commitment")
 
 //@ func (Keeper).ProcessAddCollateral
 //@ forall p Int
@@ -267,6 +289,7 @@ package keeper
 //@ assumes openCount(goCtx) > 0
 //@ ensures C08/pool-total-in-step-with-positions: err == nil ==> lpPoolGap(goCtx, p) == old(lpPoolGap(goCtx, p))
 //@ ensures C08/counter-in-step: err == nil ==> lpCountGap(goCtx) == old(lpCountGap(goCtx))
+//@ ensures C02/amm-shares-in-step: err == nil ==> shareGap(goCtx, p) == old(shareGap(goCtx, p))
 
 //@ func (Keeper).BeginBlocker
 //@ entry
@@ -275,6 +298,7 @@ package keeper
 //@ assumes openCount(ctx) > 0
 //@ ensures C08/pool-total-in-step-with-positions: lpPoolGap(ctx, p) == old(lpPoolGap(ctx, p))
 //@ ensures C08/counter-in-step: lpCountGap(ctx) == old(lpCountGap(ctx))
+//@ ensures C02/amm-shares-in-step: shareGap(ctx, p) == old(shareGap(ctx, p))
 
 // ---- C10: others close a position only when allowed; opens start healthy ---------------------------------
 // (clauses added to the contracts above)
